@@ -152,6 +152,12 @@ def judge(R, c, r, stats):
     Ls += dev([c["b1"]["pose"][i][3] for i in range(3)], [c["b2"]["pose"][i][3] for i in range(3)])
     f12 = base["w12"][:3]
     fm = max(norm(f12), norm(base["w21"][:3]), norm(sw["w21"][:3]), norm(sw["w12"][:3]), norm(mv["w12"][:3]))
+    # contact forces that cancel (a bar passing symmetrically through a block): the net force is rounding noise of the
+    # individual contact forces; "5 % of the force magnitude" is then taken of 1e-6 x the sum of the contact force magnitudes
+    floor = 1e-6 * r["internals"].get("force_abs_sum", 0.0)
+    if 0.0 < fm < floor:
+        stats["cancelling_force_cases"] = stats.get("cancelling_force_cases", 0) + 1
+        fm = floor
     ratios = [x.get("min_normal_ratio") for x in (r["internals"], sw, mv, r["repeat2"]) if x.get("min_normal_ratio") is not None]
     for key in ("inter_b3", "inter_back", "b3_fresh"):
         if key in r and r[key].get("min_normal_ratio") is not None:
